@@ -166,6 +166,10 @@ func main() {
 	}
 	// model/code disagreements
 	if len(st.DirectFail) == 0 {
+		// disagreements for which the search found a failing input come first
+		sort.SliceStable(st.Disagreements, func(i, j int) bool {
+			return st.Disagreements[i].Failing != "" && st.Disagreements[j].Failing == ""
+		})
 		for i, d := range st.Disagreements {
 			if i >= 3 {
 				break
